@@ -439,6 +439,8 @@ pub struct Node {
 	pub gone: bool,
 	/// step of the last Pump / Drain (both make the manager poll its monitors' pending events)
 	pub last_poll_step: u64,
+	/// height at which the node went down (profile `deadlines` bounds the downtime, T3)
+	pub down_since: Option<u32>,
 }
 
 #[derive(Clone, Debug)]
@@ -722,6 +724,7 @@ impl World {
 				check_styles: cfg.profile == "chainstyle",
 				gone: false,
 				last_poll_step: 0,
+				down_since: None,
 			};
 			node.live = Some(build_live(&node, None).expect("fresh node"));
 			nodes.push(node);
@@ -814,6 +817,10 @@ impl World {
 		} else if loc.contains("chain/onchaintx.rs") || loc.contains("chain/package.rs") {
 			// LDK's own (debug) assertions in the claim machinery are treated as on-chain oracles
 			("C07", "C07-0 panic in on-chain claim handling")
+		} else if msg.contains("found_blocker") {
+			// LDK's own debug assertion in the duplicate-claim path (FreeDuplicateClaimImmediately
+			// without the RAA blocker it wants to free), reached after a restart: C10's subject
+			("C10", "C10-0 debug assertion found_blocker after a restart")
 		} else if msg.contains("Channels originating a payment resolution must have") {
 			// a channel whose funding output the ChannelMonitor has already seen spent was resumed by a
 			// restarted ChannelManager instead of being force-closed (C10), whatever the profile
